@@ -34,6 +34,7 @@ def run(rep, tier):
     guards(rep, F)
     fallbacks(rep, F)
     ring_step(rep, F)
+    weights(rep, F)
 
 
 def dominance(rep, F):
@@ -258,3 +259,35 @@ def ring_step(rep, F):
             rep.bad("R6.5", "ring-moment", "ring centroid is %s with weight %s, dimension %s, step %s" % (cen[:140], w, dims, (body or "")[:140]), where=fn.loc())
     except (KeyError, Unanalysable, IndexError) as e:
         rep.bad("R6.5", "anchor", str(e))
+
+
+def weights(rep, F):
+    """R6.6: a centre of mass is a convex combination, so every weight handed to add_centroid must be non-negative by construction and of
+    the measure that belongs to the dimension: 0-d -> one(), 1-d -> Euclidean length, 2-d -> unsigned_area(..) or abs(..) of an area."""
+    rep.rule("R6.6", "every add_centroid call passes (dimension, centroid, weight) with weight = 1 for points, Euclidean length for lines, unsigned / absolute area for areal parts")
+    allowed = {
+        "Dimensions::ZeroDimensional()": [r"^one\(\)$"],
+        "Dimensions::OneDimensional()": [r"^length\(Euclidean::Euclidean\(\), a2\)$"],
+        "Dimensions::TwoDimensional()": [r"^unsigned_area\(a2\)$", r"^abs\(get_linestring_area\(a2\)\)$"],
+    }
+    seen = {}
+    for fn in F.find(r"^%s::<T>::\w+$" % CO, crates=("geo",)):
+        try:
+            ps = opaque(F, loop_bound=1).run(fn)
+        except Unanalysable as e:
+            rep.bad("R6.6", "unanalysable:" + short(fn.path), str(e), where=fn.loc())
+            continue
+        name = fn.path.rsplit("::", 1)[-1]
+        for p in ps:
+            for c in calls_of(p):
+                if c[1].endswith("::add_centroid"):
+                    dim, cen, w = (bare(a) for a in c[2][1:4])
+                    seen.setdefault((name, dim, w), fn)
+    for (name, dim, w), fn in sorted(seen.items(), key=lambda x: x[0]):
+        pats = allowed.get(dim)
+        if pats and any(re.match(pt, w) for pt in pats):
+            rep.ok("R6.6", "%s:%s" % (name, dim.split("::")[-1][:-2]), sample={"adder": name, "dimension": dim, "weight": w})
+        else:
+            rep.bad("R6.6", "weight:" + name, "%s adds a %s part with weight %s: the weight must be the non-negative measure of that dimension (a signed area makes a clockwise "
+                    "part count negatively against the other members of a collection)" % (name, dim.split("::")[-1][:-2], w[:80]), where=fn.loc())
+    rep.floor("R6.6", "add_centroid sites", len(seen), 5)
